@@ -90,7 +90,7 @@ func loadProgram(patterns []string) (*ssa.Program, []*packages.Package, error) {
 		patterns = dirs
 	}
 	cfg := &packages.Config{Mode: packages.LoadAllSyntax, Dir: repoDir, Overlay: overlay,
-		BuildFlags: []string{"-tags=verif"}, Env: goEnv()}
+		BuildFlags: []string{"-tags=verif"}, Env: goEnv(), Tests: loadTests}
 	pkgs, err := packages.Load(cfg, patterns...)
 	if err != nil {
 		return nil, nil, err
@@ -168,6 +168,8 @@ func main() {
 		os.Exit(cmdCheck(os.Args[2:]))
 	case "replay":
 		os.Exit(cmdReplay(os.Args[2:]))
+	case "selftest":
+		os.Exit(cmdSelftest(os.Args[2:]))
 	case "list":
 		prog, _, err := loadProgram(nil)
 		if err != nil {
@@ -330,7 +332,7 @@ func cmdCheck(args []string) int {
 		fmt.Printf("INCONCLUSIVE property=%s reason=%s\n", *prop, s)
 	}
 	wall := time.Since(t0)
-	if !*noEvidence {
+	if !*noEvidence && os.Getenv("SYMGO_NOEVIDENCE") == "" {
 		writeEvidence(*prop, *tier, seed, cfg, hs, results, stats, nViol, nKnown, nReplayed, inconclusive, wall, tLoad, tExplore)
 	}
 	totalPaths := 0
